@@ -91,4 +91,4 @@ Definition c20_reachable_shared : list shared_var := [
 ].
 
 (* size of the call graph *)
-Definition c20_reach_stats : string := "nodes=1542 edges=22287 exported=1421".
+Definition c20_reach_stats : string := "nodes=1543 edges=22323 exported=1421".
